@@ -84,7 +84,7 @@ CLAIMS = [
         "technique": "Lean 4 round-trip theorem on the logical stream content + K2 differential (write, read into arbitrary destinations, workload afterwards)",
         "text": "Props/C12.lean: reading the image of any locked source into any locked destination (smaller, larger, populated, more stripes than "
                 "buckets) yields Inv, the source's contents (Rel with the same map), size, minimum load factor and maximum hashpower; the source is "
-                "unchanged (write is a pure function); afterwards every operation sequence refines the map (usable_after_read, via C02).",
+                "unchanged (write is a pure function); afterwards every operation sequence refines the map (usable_after_read, via C02). Props/C12Wire.lean (T-G): the layout of the stream image and the steps of operator>> are regenerated from the source text on every run; the reader consumes exactly what the writer produces (image_read_as_written), the image is the model's Wire (image_is_wire), the steps are those of Table.read (read_steps_are_model_steps) and the binary reader does no formatted input (reader_is_unformatted).",
         "design_ref": "DESIGN.md 6/C12, 12",
         "note": "Byte layout of unoccupied storage is unspecified and not modelled; hypothesis src.hp <= src.mhp (physically always true) and a valid "
                 "stored load factor are explicit hypotheses; trivially-copyable key kind only (as the property states).",
